@@ -31,15 +31,15 @@ let part1 op ps args =
      | "redc" -> s (Model.redc f a.(0)) | "redcal" -> s (Model.redcal f a.(0))
      | "redcsal" -> s (Model.redcsal f a.(0)) | "redcs" -> s (Model.redcs f a.(0))
      | "redcin" -> s (Model.redcin f a.(0)) | "redcsin" -> s (Model.redcsin f a.(0))
-     | "mul" -> elt (Model.mul32 f a.(0) a.(1)) | "mulin" -> elt (Model.mulin f a.(0) a.(1))
-     | "add" -> elt (Model.add32 f a.(0) a.(1)) | "addin" -> elt (Model.addin f a.(0) a.(1))
-     | "sub" -> elt (Model.sub32 f a.(0) a.(1)) | "subin" -> elt (Model.subin f a.(0) a.(1))
-     | "div" -> eo (Model.div32 f a.(0) a.(1)) | "divin" -> eo (Model.divin f a.(0) a.(1))
-     | "neg" -> elt (Model.neg f a.(0)) | "negin" -> elt (Model.negin f a.(0))
-     | "inv" -> eo (Model.inv f a.(0)) | "invin" -> eo (Model.invin f a.(0))
-     | "axpy" -> elt (Model.axpy f a.(0) a.(1) a.(2)) | "axpyin" -> elt (Model.axpyin f a.(0) a.(1) a.(2))
-     | "axmy" -> elt (Model.axmy f a.(0) a.(1) a.(2)) | "axmyin" -> elt (Model.axmyin f a.(0) a.(1) a.(2))
-     | "maxpy" -> elt (Model.maxpy f a.(0) a.(1) a.(2)) | "maxpyin" -> elt (Model.maxpyin f a.(0) a.(1) a.(2))
+     | "mul" | "mul.rra" | "mul.rar" -> elt (Model.mul32 f a.(0) a.(1)) | "mulin" -> elt (Model.mulin f a.(0) a.(1))
+     | "add" | "add.rra" | "add.rar" -> elt (Model.add32 f a.(0) a.(1)) | "addin" -> elt (Model.addin f a.(0) a.(1))
+     | "sub" | "sub.rra" | "sub.rar" -> elt (Model.sub32 f a.(0) a.(1)) | "subin" -> elt (Model.subin f a.(0) a.(1))
+     | "div" | "div.rra" | "div.rar" -> eo (Model.div32 f a.(0) a.(1)) | "divin" -> eo (Model.divin f a.(0) a.(1))
+     | "neg" | "neg.rr" -> elt (Model.neg f a.(0)) | "negin" -> elt (Model.negin f a.(0))
+     | "inv" | "inv.rr" -> eo (Model.inv f a.(0)) | "invin" -> eo (Model.invin f a.(0))
+     | "axpy" | "axpy.ra" | "axpy.rb" | "axpy.rc" -> elt (Model.axpy f a.(0) a.(1) a.(2)) | "axpyin" -> elt (Model.axpyin f a.(0) a.(1) a.(2))
+     | "axmy" | "axmy.ra" | "axmy.rc" -> elt (Model.axmy f a.(0) a.(1) a.(2)) | "axmyin" -> elt (Model.axmyin f a.(0) a.(1) a.(2))
+     | "maxpy" | "maxpy.ra" | "maxpy.rc" -> elt (Model.maxpy f a.(0) a.(1) a.(2)) | "maxpyin" -> elt (Model.maxpyin f a.(0) a.(1) a.(2))
      | "init.none" -> elt Model.init0
      | "init.double" | "init.float" -> elt (Model.init_double f a.(0))
      | "init.int64" -> elt (Model.init_int64 f a.(0))
@@ -115,6 +115,37 @@ let part2 op ks ps args =
     | "exp.ruint" -> elt (Model.mga_exp_ru k m a.(0) a.(1))
     | "eq" -> let e = Model.mga_eq a.(0) a.(1) in bs e ^ " " ^ bs (not e)
     | "eq.ruint" -> let e = Model.mga_eq_ruint k m a.(0) a.(1) in bs e ^ " " ^ bs (not e)
+    (* phase 3 (harness/c07_recint2.C): destination aliases an operand, wide reduction, native exponents, sequences *)
+    | "sub.aab" | "sub.aba" -> elt (Model.mga_sub k m a.(0) a.(1))
+    | "sub.aaa" -> elt (Model.mga_sub k m a.(0) a.(0))
+    | "sub.aaT" -> elt (Model.mga_sub_T k m a.(0) a.(1))
+    | "add.aab" | "add.aba" -> elt (Model.mga_add k m a.(0) a.(1))
+    | "add.aaa" -> elt (Model.mga_add k m a.(0) a.(0))
+    | "add.aaT" -> elt (Model.mga_add_T k m a.(0) a.(1))
+    | "mul.aab" | "mul.aba" -> elt (Model.mga_mul k m a.(0) a.(1))
+    | "mul.aaT" -> elt (Model.mga_mul_T k m a.(0) a.(1))
+    | "div.aab" | "div.aba" -> elt (Model.mga_div k m a.(0) a.(1))
+    | "div.aaa" -> elt (Model.mga_div k m a.(0) a.(0))
+    | "neg.aa" -> elt (Model.mga_neg k m a.(0))
+    | "inv.aa" -> elt (Model.mga_inv k m a.(0))
+    | "square.aa" -> elt (Model.mga_square k m a.(0))
+    | "addmul.aab" -> elt (Model.mga_addmul k m a.(0) a.(0) a.(1))
+    | "addmul.aba" -> elt (Model.mga_addmul k m a.(0) a.(1) a.(0))
+    | "addmul.aaa" -> elt (Model.mga_addmul k m a.(0) a.(0) a.(0))
+    | "exp.aa.u64" | "exp.u32" | "exp.u16" | "exp.u8" | "exp.ull" -> elt (Model.mga_exp_u k m a.(0) a.(1))
+    | "exp.aa.ruint" -> elt (Model.mga_exp_ru k m a.(0) a.(1))
+    | "mul.iszero" -> let r = Model.mga_mul k m a.(0) a.(1) in let e = Model.mga_eq r Model.Z0 in
+      h r ^ " " ^ bs e ^ bs (not e) ^ bs e ^ bs (not e) ^ bs e ^ bs e ^ bs (not e) ^ bs e
+    | "seq.ring" ->
+      let x = a.(0) and y = a.(1) and z = a.(2) in
+      let s1 = Model.mga_mul k m x y in let s2 = Model.mga_add k m s1 z in let s3 = Model.mga_subin k m s2 x in
+      let s4 = Model.mga_square k m s3 in let s5 = Model.mga_neg k m s4 in let s6 = Model.mga_mul k m s5 y in
+      let s7 = Model.mga_sub k m z s6 in let s8 = Model.mga_addmul k m s7 x y in
+      let s9 = Model.mga_add k m s8 (Model.mga_of_signed k m (zi 1)) in let s10 = Model.mga_sub k m s9 s9 in
+      let s11 = Model.mga_subin k m s10 z in
+      String.concat " " (List.map h [s1; s2; s3; s4; s5; s6; s7; s8; s9; s10]) ^ " " ^ elt s11
+    | "reduction.wide" -> h (Model.reduction k m.Model.g_p m.Model.g_p1 a.(0))
+    | "reduction.narrow" -> let r = Model.reduction k m.Model.g_p m.Model.g_p1 a.(0) in h r ^ " " ^ h r
     | _ -> "UNKNOWN-OP"
   end else if pre = "I." then begin
     let elt r = h r ^ " " ^ h (Model.mgi_get_ruint r) in
@@ -155,6 +186,37 @@ let part2 op ks ps args =
     | "exp.ruint" -> elt (Model.mgi_exp p nbits a.(0) a.(1))
     | "eq" -> let e = Model.mga_eq a.(0) a.(1) in bs e ^ " " ^ bs (not e)
     | "eq.ruint" -> let e = Model.mga_eq a.(0) a.(1) in bs e ^ " " ^ bs (not e)
+    | "sub.aab" | "sub.aba" -> elt (Model.mgi_sub k p a.(0) a.(1))
+    | "sub.aaa" -> elt (Model.mgi_sub k p a.(0) a.(0))
+    | "sub.aaT" -> elt (Model.mgi_sub_T k p a.(0) a.(1))
+    | "add.aab" | "add.aba" -> elt (Model.mgi_add k p a.(0) a.(1))
+    | "add.aaa" -> elt (Model.mgi_add k p a.(0) a.(0))
+    | "add.aaT" -> elt (Model.mgi_add_T k p a.(0) a.(1))
+    | "mul.aab" | "mul.aba" -> elt (Model.mgi_mul p a.(0) a.(1))
+    | "mul.aaT" -> elt (Model.mgi_mul_T p a.(0) a.(1))
+    | "div.aab" | "div.aba" -> elt (Model.mgi_div k p a.(0) a.(1))
+    | "div.aaa" -> elt (Model.mgi_div k p a.(0) a.(0))
+    | "neg.aa" -> elt (Model.mgi_neg k p a.(0))
+    | "inv.aa" -> elt (Model.mgi_inv k p a.(0))
+    | "square.aa" -> elt (Model.mgi_mul p a.(0) a.(0))
+    | "addmul.aab" -> elt (Model.mgi_addmul p a.(0) a.(0) a.(1))
+    | "addmul.aba" -> elt (Model.mgi_addmul p a.(0) a.(1) a.(0))
+    | "addmul.aaa" -> elt (Model.mgi_addmul p a.(0) a.(0) a.(0))
+    | "exp.aa.u64" | "exp.ull" -> elt (Model.mgi_exp p (nat_of_int 64) a.(0) a.(1))
+    | "exp.u32" -> elt (Model.mgi_exp p (nat_of_int 32) a.(0) a.(1))
+    | "exp.u16" -> elt (Model.mgi_exp p (nat_of_int 16) a.(0) a.(1))
+    | "exp.u8" -> elt (Model.mgi_exp p (nat_of_int 8) a.(0) a.(1))
+    | "exp.aa.ruint" -> elt (Model.mgi_exp p nbits a.(0) a.(1))
+    | "mul.iszero" -> let r = Model.mgi_mul p a.(0) a.(1) in let e = Model.mga_eq r Model.Z0 in
+      h r ^ " " ^ bs e ^ bs (not e) ^ bs e ^ bs (not e) ^ bs e ^ bs e ^ bs (not e) ^ bs e
+    | "seq.ring" ->
+      let x = a.(0) and y = a.(1) and z = a.(2) in
+      let s1 = Model.mgi_mul p x y in let s2 = Model.mgi_add k p s1 z in let s3 = Model.mgi_subin k p s2 x in
+      let s4 = Model.mgi_mul p s3 s3 in let s5 = Model.mgi_neg k p s4 in let s6 = Model.mgi_mul p s5 y in
+      let s7 = Model.mgi_sub k p z s6 in let s8 = Model.mgi_addmul p s7 x y in
+      let s9 = Model.mgi_add k p s8 (Model.mgi_of_signed k p (zi 1)) in let s10 = Model.mgi_sub k p s9 s9 in
+      let s11 = Model.mgi_subin k p s10 z in
+      String.concat " " (List.map h [s1; s2; s3; s4; s5; s6; s7; s8; s9; s10]) ^ " " ^ elt s11
     | _ -> "UNKNOWN-OP"
   end else begin
     let m = memo mr_cache key (fun () -> Model.mr_mk k p) in
@@ -193,6 +255,31 @@ let part2 op ks ps args =
     | "isOne" -> bs (Model.mga_eq a.(0) m.Model.g_one)
     | "isMOne" -> bs (Model.mga_eq a.(0) m.Model.g_mOne)
     | "areEqual" -> bs (Model.mga_eq a.(0) a.(1))
+    | "reduc.wide" -> h (Model.mr_reduc k m a.(0))
+    | "mul.rry" | "mul.rxr" -> elt (Model.mr_mul k m a.(0) a.(1))
+    | "mul.rrr" | "mulin.rr" -> elt (Model.mr_mul k m a.(0) a.(0))
+    | "add.rry" | "add.rxr" -> elt (Model.mr_add k m a.(0) a.(1))
+    | "add.rrr" | "addin.rr" -> elt (Model.mr_add k m a.(0) a.(0))
+    | "sub.rry" | "sub.rxr" -> elt (Model.mr_sub k m a.(0) a.(1))
+    | "sub.rrr" -> elt (Model.mr_sub k m a.(0) a.(0))
+    | "subin.rr" -> elt (Model.mr_subin k m a.(0) a.(0))
+    | "div.rry" | "div.rxr" -> elt (Model.mr_div k m a.(0) a.(1))
+    | "neg.rr" -> elt (Model.mr_neg k m a.(0))
+    | "inv.rr" -> elt (Model.mr_inv k m a.(0))
+    | "axpy.r1" | "axpy.r2" | "axpy.r3" -> elt (Model.mr_axpy k m a.(0) a.(1) a.(2))
+    | "axmy.r1" | "axmy.r2" | "axmy.r3" -> elt (Model.mr_axmy k m a.(0) a.(1) a.(2))
+    | "maxpy.r1" | "maxpy.r2" | "maxpy.r3" -> elt (Model.mr_maxpy k m a.(0) a.(1) a.(2))
+    | "axpyin.r1" -> elt (Model.mr_axpyin k m a.(0) a.(0) a.(2))
+    | "axmyin.r1" -> elt (Model.mr_axmyin k m a.(0) a.(0) a.(2))
+    | "maxpyin.r1" -> elt (Model.mr_maxpyin k m a.(0) a.(0) a.(2))
+    | "mul.iszero" -> let r = Model.mr_mul k m a.(0) a.(1) in let e = Model.mga_eq r Model.Z0 in h r ^ " " ^ bs e ^ bs e ^ bs e
+    | "seq.ring" ->
+      let x = a.(0) and y = a.(1) and z = a.(2) in
+      let s1 = Model.mr_mul k m x y in let s2 = Model.mr_add k m s1 z in let s3 = Model.mr_subin k m s2 x in
+      let s4 = Model.mr_mul k m s3 s3 in let s5 = Model.mr_neg k m s4 in let s6 = Model.mr_axpyin k m s5 x y in
+      let s7 = Model.mr_sub k m z s6 in let s8 = Model.mr_maxpyin k m s7 y z in let s9 = Model.mr_axmyin k m s8 x z in
+      let s10 = Model.mr_sub k m s9 s9 in let s11 = Model.mr_subin k m s10 z in
+      String.concat " " (List.map h [s1; s2; s3; s4; s5; s6; s7; s8; s9; s10]) ^ " " ^ elt s11
     | _ -> "UNKNOWN-OP"
   end
 
